@@ -4,6 +4,7 @@ This module provides a class to fit elliptical isophotes.
 """
 
 import warnings
+from functools import wraps
 
 import numpy as np
 from astropy.utils.exceptions import AstropyUserWarning
@@ -18,6 +19,24 @@ from photutils.isophote.isophote import Isophote, IsophoteList
 from photutils.isophote.sample import CentralEllipseSample, EllipseSample
 
 __all__ = ['Ellipse']
+
+
+def _restore_geometry_flags(method):
+    """
+    Decorator for `Ellipse.fit_image`: the fix flags and growth mode
+    given in a call override the input geometry for that call only, so
+    that later calls (``fit_image`` or ``fit_isophote``) do not depend
+    on them.
+    """
+    @wraps(method)
+    def wrapper(self, *args, **kwargs):
+        try:
+            return method(self, *args, **kwargs)
+        finally:
+            self._geometry.fix = self._geometry_fix.copy()
+            self._geometry.linear_growth = self._geometry_linear_growth
+
+    return wrapper
 
 
 class Ellipse:
@@ -207,6 +226,7 @@ class Ellipse:
         """
         self._geometry.centerer_threshold = threshold
 
+    @_restore_geometry_flags
     def fit_image(self, sma0=None, minsma=0.0, maxsma=None, step=0.1,
                   conver=DEFAULT_CONVERGENCE, minit=DEFAULT_MINIT,
                   maxit=DEFAULT_MAXIT, fflag=DEFAULT_FFLAG,
